@@ -160,13 +160,39 @@ Proof.
 Qed.
 
 (** a subscription is ended only by the environment, by the context-honouring subscriber once the
-    handler's context is done, or by handleClose once the ROUTER is closing *)
+    handler's context is done, or by the handleClose of a handler that uses the SAME Subscriber object
+    once the ROUTER is closing *)
+Lemma sub_closed_hc s h0 closing s' evs h :
+  step s (LHC h0 closing) = Some (s', evs) -> h_subOpen (hs s h) = true -> h_subOpen (hs s' h) = false ->
+  exists h' b, LHC h0 closing = LHC h' b /\ closingCh s = true /\ h_sub (hs s h) = h_sub (hs s h').
+Proof.
+  intros X P0 P1.
+    unfold step in X. destruct (h_hc (hs s h0)) eqn:EH; try discriminate X.
+    assert (G1 : h_subOpen (hs (set_h (close_sub s h0) h0 (hs (close_sub s h0) h0 <| h_hc := CDone |> <| h_cancel := true |>)) h) = false ->
+                 h_sub (hs s h) = h_sub (hs s h0)).
+    { intros Y. unfold set_h, close_sub in Y; simpl in Y.
+      destruct (Nat.eq_dec h h0) as [->|N]; auto. rewrite upd_other in Y by assumption.
+      destruct (Nat.eqb (h_sub (hs s h)) (h_sub (hs s h0))) eqn:Q; [now apply Nat.eqb_eq in Q|congruence]. }
+    assert (G2 : h_subOpen (hs (set_h s h0 (hs s h0 <| h_hc := CDone |> <| h_cancel := true |>)) h) = false -> False).
+    { intros Y. unfold set_h in Y; simpl in Y.
+      destruct (Nat.eq_dec h h0) as [->|N]; [rewrite upd_same in Y; simpl in Y; congruence|].
+      rewrite upd_other in Y by assumption. congruence. }
+    exists h0, closing.
+    destruct closing.
+    - destruct (closingCh s) eqn:CC; [|discriminate]. injection X as <- _. auto.
+    - destruct (hctx_done s h0); [|discriminate]. destruct (closingCh s) eqn:CC; injection X as <- _.
+      + auto.
+      + destruct (G2 P1).
+Qed.
+
 Lemma sub_closed_only_by s l s' evs h :
   step s l = Some (s', evs) -> h < nexth s -> h_subOpen (hs s h) = true -> h_subOpen (hs s' h) = false ->
-  l = LSubEnd h \/ (l = LSubCtx h /\ hctx_done s h = true) \/ (exists b, l = LHC h b /\ closingCh s = true).
+  l = LSubEnd h \/ (l = LSubCtx h /\ hctx_done s h = true)
+  \/ (exists h' b, l = LHC h' b /\ closingCh s = true /\ h_sub (hs s h) = h_sub (hs s h')).
 Proof.
   intros X Hlt P0 P1.
-  destruct l; unfold step in X; destr X; injection X as <- _; subst;
+  destruct l; try solve [right; right; eapply sub_closed_hc; eauto];
+    unfold step in X; destr X; injection X as <- _; subst;
     repeat match goal with
            | E : rh_step _ _ _ _ _ = Some _ |- _ => apply rh_frame in E; destruct E as (_ & _ & _ & _ & E & _); specialize (E h P0)
            | E : cl_step _ _ _ _ = Some _ |- _ => apply cl_frame in E; destruct E as (_ & _ & _ & E & _); specialize (E h)
